@@ -116,7 +116,7 @@ func (e *kvElection) checkKeyAndReelect(ctx context.Context) {
 			)...,
 		)
 		e.leaderID.Store(newLeaderID)
-		e.revision.Store(entry.Revision())
+		e.observedRevision.Store(entry.Revision())
 	}
 }
 
@@ -194,11 +194,11 @@ func (e *kvElection) handleWatchEvent(entry Entry) {
 			)...,
 		)
 		e.leaderID.Store(newLeaderID)
-		e.revision.Store(entry.Revision())
+		e.observedRevision.Store(entry.Revision())
 		return
 	}
 	e.leaderID.Store(newLeaderID)
-	e.revision.Store(entry.Revision())
+	e.observedRevision.Store(entry.Revision())
 
 	// Check if we should attempt priority takeover
 	if e.cfg.AllowPriorityTakeover && e.cfg.Priority > payload.Priority {
